@@ -13,6 +13,65 @@ GB = "gateway_base"
 NONRAISING = {"_geterrortext", "geterrortext"}
 
 
+def check_stdio_typestate(ctx: Ctx, oid: str) -> None:
+    """init_popen_io: the protocol IO is built from dup'ed descriptors, fds 0/1 are re-pointed at devnull before the IO is returned and
+    sys.stdin/sys.stdout are rebound to them -- remote code (and its children) can neither read from nor write into the frame stream
+    (shared: C06.f, C02.o)"""
+    repo = ctx.repo
+    with ctx.obligation(oid, "stdio-typestate") as ob:
+        from ..util import expand, xtext
+        fp = repo.func(f"{GB}.init_popen_io")
+        cfp = build_cfg(repo, fp, Oracle(repo, fp, precise=True))
+
+        def nodes_calling(pred):
+            return cfg_nodes_with_call(cfp, pred)
+
+        pio = nodes_calling(lambda c: isinstance(c.func, ast.Name) and c.func.id == "Popen2IO" and len(c.args) == 3 and "os.dup(" in xtext(repo, fp, c))
+        ob.require(len(pio) == 1, "init_popen_io: construction of the protocol IO from dup'ed descriptors not found")
+        pcall = [c for c in calls_in_node(pio[0]) if isinstance(c.func, ast.Name) and c.func.id == "Popen2IO"][0]
+        out_x, in_x = xtext(repo, fp, pcall.args[0]), xtext(repo, fp, pcall.args[1])
+        ok = out_x.replace('"', "'").startswith("execmodel.fdopen(os.dup(1), 'w'") and in_x.replace('"', "'").startswith("execmodel.fdopen(os.dup(0), 'r'")
+        ob.site(fp, pcall, "protocol IO = Popen2IO(outfile = fdopen(dup(1),'w'), infile = fdopen(dup(0),'r'))", outfile=out_x[:50], infile=in_x[:50])
+        if not ok:
+            ob.violation(fp, pcall, "the protocol IO is not built from (dup'ed stdout opened for writing, dup'ed stdin opened for reading)")
+        sig = [a.arg for a in repo.func(f"{GB}.Popen2IO.__init__").node.args.args]
+        if sig[:3] != ["self", "outfile", "infile"]:
+            ob.violation(repo.func(f"{GB}.Popen2IO.__init__"), None, "Popen2IO.__init__ parameter order changed (outfile, infile)")
+        for fd, flag in ((0, "os.O_RDONLY"), (1, "os.O_WRONLY")):
+            dups = nodes_calling(lambda c: unparse(c.func) == "os.dup" and len(c.args) == 1 and repo.fold_in(c.args[0], fp) == fd)
+            dup2s = nodes_calling(lambda c: unparse(c.func) == "os.dup2" and len(c.args) == 2 and repo.fold_in(c.args[1], fp) == fd)
+            # only the POSIX/dup branch matters: nodes dominated by a dup of this fd
+            ok = bool(dups) and bool(dup2s) and all(any(cfp.dominated_by(b.id, a.id) for a in dups) for b in dup2s)
+            ob.site(fp, dup2s[0].ast if dup2s else fp.node, f"fd {fd}: os.dup({fd}) precedes os.dup2(devnull, {fd}) on every path", ok=ok)
+            if not ok:
+                ob.violation(fp, dup2s[0].ast if dup2s else fp.node, f"fd {fd} is redirected before it was duplicated (or not at all): the protocol stream would be lost or remote prints would enter it",
+                             construct=f"fd{fd} order")
+                continue
+            for b in dup2s:
+                c = [c for c in calls_in_node(b) if unparse(c.func) == "os.dup2"][0]
+                from ..util import value_at
+                src = norm(value_at(repo, fp, cfp, b.id, c.args[0]))
+                if not (src.startswith("os.open(") and src.rstrip(")").endswith(flag)):
+                    ob.violation(fp, c, f"fd {fd} is redirected to `{src[:60]}`, not to devnull opened {flag}")
+            # the redirection dominates the return of the protocol IO
+            rets = [n for n in cfp.nodes if isinstance(n.ast, ast.Return) and n.id in cfp.live() and any(cfp.dominated_by(n.id, a.id) for a in dups)]
+            for r in rets:
+                if not any(cfp.dominated_by(r.id, b.id) for b in dup2s):
+                    ob.violation(fp, r.ast, f"init_popen_io can return without fd {fd} being redirected to devnull")
+        rb = {}
+        for n in cfp.nodes:
+            if isinstance(n.ast, ast.Assign) and unparse(n.ast.targets[0]) in ("sys.stdin", "sys.stdout") and n.id in cfp.live() and any(cfp.dominated_by(n.id, p.id) for p in pio):
+                rb[unparse(n.ast.targets[0])] = n
+        for name, fd, mode in (("sys.stdin", 0, "r"), ("sys.stdout", 1, "w")):
+            n = rb.get(name)
+            v = expand(repo, fp, n.ast.value) if n is not None else None
+            ok = isinstance(v, ast.Call) and unparse(v.func) == "execmodel.fdopen" and repo.fold_in(v.args[0], fp) == fd and repo.fold_in(v.args[1], fp) == mode
+            ob.site(fp, n.ast if n is not None else fp.node, f"{name} rebound to the redirected fd {fd} after the protocol IO was built", ok=ok)
+            if not ok:
+                ob.violation(fp, n.ast if n is not None else fp.node, f"{name} is not rebound (after the protocol IO was built) to the redirected descriptor {fd}: remote code using it would write into the protocol stream",
+                             construct=f"{name} rebinding")
+
+
 def check(ctx: Ctx) -> None:
     repo = ctx.repo
     ctx.decides = ("every local validation (kwargs without function, lambda, first parameter, closure, non-builtin globals, missing source) raises before "
@@ -375,58 +434,7 @@ def check(ctx: Ctx) -> None:
             if p is not None:
                 ob.violation(f_ex, f_ex.node, f"executetask can finish ({kind}) without closing the channel", construct=f"exit:{kind}", path=cfg.describe_path(p))
 
-    with ctx.obligation("C06.f", "stdio-typestate") as ob:
-        from ..util import expand, xtext
-        fp = repo.func(f"{GB}.init_popen_io")
-        cfp = build_cfg(repo, fp, Oracle(repo, fp, precise=True))
-
-        def nodes_calling(pred):
-            return cfg_nodes_with_call(cfp, pred)
-
-        pio = nodes_calling(lambda c: isinstance(c.func, ast.Name) and c.func.id == "Popen2IO" and len(c.args) == 3 and "os.dup(" in xtext(repo, fp, c))
-        ob.require(len(pio) == 1, "init_popen_io: construction of the protocol IO from dup'ed descriptors not found")
-        pcall = [c for c in calls_in_node(pio[0]) if isinstance(c.func, ast.Name) and c.func.id == "Popen2IO"][0]
-        out_x, in_x = xtext(repo, fp, pcall.args[0]), xtext(repo, fp, pcall.args[1])
-        ok = out_x.replace('"', "'").startswith("execmodel.fdopen(os.dup(1), 'w'") and in_x.replace('"', "'").startswith("execmodel.fdopen(os.dup(0), 'r'")
-        ob.site(fp, pcall, "protocol IO = Popen2IO(outfile = fdopen(dup(1),'w'), infile = fdopen(dup(0),'r'))", outfile=out_x[:50], infile=in_x[:50])
-        if not ok:
-            ob.violation(fp, pcall, "the protocol IO is not built from (dup'ed stdout opened for writing, dup'ed stdin opened for reading)")
-        sig = [a.arg for a in repo.func(f"{GB}.Popen2IO.__init__").node.args.args]
-        if sig[:3] != ["self", "outfile", "infile"]:
-            ob.violation(repo.func(f"{GB}.Popen2IO.__init__"), None, "Popen2IO.__init__ parameter order changed (outfile, infile)")
-        for fd, flag in ((0, "os.O_RDONLY"), (1, "os.O_WRONLY")):
-            dups = nodes_calling(lambda c: unparse(c.func) == "os.dup" and len(c.args) == 1 and repo.fold_in(c.args[0], fp) == fd)
-            dup2s = nodes_calling(lambda c: unparse(c.func) == "os.dup2" and len(c.args) == 2 and repo.fold_in(c.args[1], fp) == fd)
-            # only the POSIX/dup branch matters: nodes dominated by a dup of this fd
-            ok = bool(dups) and bool(dup2s) and all(any(cfp.dominated_by(b.id, a.id) for a in dups) for b in dup2s)
-            ob.site(fp, dup2s[0].ast if dup2s else fp.node, f"fd {fd}: os.dup({fd}) precedes os.dup2(devnull, {fd}) on every path", ok=ok)
-            if not ok:
-                ob.violation(fp, dup2s[0].ast if dup2s else fp.node, f"fd {fd} is redirected before it was duplicated (or not at all): the protocol stream would be lost or remote prints would enter it",
-                             construct=f"fd{fd} order")
-                continue
-            for b in dup2s:
-                c = [c for c in calls_in_node(b) if unparse(c.func) == "os.dup2"][0]
-                from ..util import value_at
-                src = norm(value_at(repo, fp, cfp, b.id, c.args[0]))
-                if not (src.startswith("os.open(") and src.rstrip(")").endswith(flag)):
-                    ob.violation(fp, c, f"fd {fd} is redirected to `{src[:60]}`, not to devnull opened {flag}")
-            # the redirection dominates the return of the protocol IO
-            rets = [n for n in cfp.nodes if isinstance(n.ast, ast.Return) and n.id in cfp.live() and any(cfp.dominated_by(n.id, a.id) for a in dups)]
-            for r in rets:
-                if not any(cfp.dominated_by(r.id, b.id) for b in dup2s):
-                    ob.violation(fp, r.ast, f"init_popen_io can return without fd {fd} being redirected to devnull")
-        rb = {}
-        for n in cfp.nodes:
-            if isinstance(n.ast, ast.Assign) and unparse(n.ast.targets[0]) in ("sys.stdin", "sys.stdout") and n.id in cfp.live() and any(cfp.dominated_by(n.id, p.id) for p in pio):
-                rb[unparse(n.ast.targets[0])] = n
-        for name, fd, mode in (("sys.stdin", 0, "r"), ("sys.stdout", 1, "w")):
-            n = rb.get(name)
-            v = expand(repo, fp, n.ast.value) if n is not None else None
-            ok = isinstance(v, ast.Call) and unparse(v.func) == "execmodel.fdopen" and repo.fold_in(v.args[0], fp) == fd and repo.fold_in(v.args[1], fp) == mode
-            ob.site(fp, n.ast if n is not None else fp.node, f"{name} rebound to the redirected fd {fd} after the protocol IO was built", ok=ok)
-            if not ok:
-                ob.violation(fp, n.ast if n is not None else fp.node, f"{name} is not rebound (after the protocol IO was built) to the redirected descriptor {fd}: remote code using it would write into the protocol stream",
-                             construct=f"{name} rebinding")
+    check_stdio_typestate(ctx, "C06.f")
 
     with ctx.obligation("C06.g", "lineno") as ob:
         from ..terms import const as _cst2, evaluator as _evg
